@@ -5,37 +5,11 @@
 From Coq Require Import List String Bool QArith Qabs ZArith Ascii.
 Import ListNotations.
 Require Import Py ListsGen Sem.
+Require Export PyDict.
 Local Open Scope Q_scope.
 
-(* ---------- numbers ---------- *)
-Definition qzero (q : Q) : bool := Qeq_bool q 0.          (* value == 0 *)
-Definition qadd (a b : Q) : Q := Qred (a + b).
-Definition qsub (a b : Q) : Q := Qred (a - b).
-Definition qmul (a b : Q) : Q := Qred (a * b).
-Definition qdiv (a b : Q) : Q := Qred (a / b).
-Definition qneg (a : Q) : Q := Qred (- a).
-Definition qabs (a : Q) : Q := Qred (Qabs a).
-Definition qle (a b : Q) : bool := Qle_bool a b.
-Definition qlt (a b : Q) : bool := negb (Qle_bool b a).
-
-(* ---------- Python dict {Var: float} as an association list ---------- *)
-Fixpoint assoc (v : var) (l : pvars) : option Q :=
-  match l with
-  | [] => None
-  | (k, q) :: r => if String.eqb k v then Some q else assoc v r
-  end.
-Definition has_key (v : var) (l : pvars) : bool :=
-  match assoc v l with Some _ => true | None => false end.
-(* d[k] = q : overwrite in place, or append *)
-Fixpoint dict_set (l : pvars) (k : var) (q : Q) : pvars :=
-  match l with
-  | [] => [(k, q)]
-  | (k', q') :: r => if String.eqb k' k then (k', q) :: r else (k', q') :: dict_set r k q
-  end.
-(* d.pop(k) *)
-Definition dict_pop (l : pvars) (k : var) : pvars :=
-  filter (fun p => negb (String.eqb (fst p) k)) l.
-Definition keys (l : pvars) : list var := map fst l.
+(* numbers (qzero, qadd, … qlt) and the association-list primitives (assoc, has_key, dict_set,
+   dict_pop, keys) live in base/PyDict.v since the translator targets them too (gen/TermGen.v). *)
 
 (* PolyhedralTerm.__init__ : zero coefficients are dropped *)
 Definition mk_term (variables : pvars) (c : Q) : pterm :=
